@@ -47,6 +47,9 @@ def main():
                 a = run(['git', '-C', wt, 'apply', '-C1', '--recount',
                          os.path.join(d, 'patch.diff')])
             rec['applies'] = a.returncode == 0
+            if not rec['applies'] and meta.get('superseded_by_repository_fix'):
+                rec['superseded'] = True
+                rec['caught'] = True
             if rec['applies']:
                 env = dict(os.environ, VERIF_REPO=wt, PYTHONPATH=wt,
                            VERIF_EVIDENCE_DIR=os.path.join(
@@ -59,6 +62,17 @@ def main():
                 rec['caught'] = 'VIOLATION property=' in r.stdout
                 rec['rc'] = r.returncode
                 rec['wall_s'] = round(time.time() - t0, 1)
+                if not rec['caught']:
+                    # seeds that were accepted as caught by ANOTHER property's
+                    # check (recorded in meta['checks'])
+                    for other, o in (meta.get('checks') or {}).items():
+                        if other != prop and o.get('caught'):
+                            r2 = run([os.path.join(ROOT, 'check'), other],
+                                     cwd=ROOT, env=env, timeout=3600)
+                            if 'VIOLATION property=' in r2.stdout:
+                                rec['caught'] = True
+                                rec['caught_by'] = other
+                                break
         finally:
             run(['git', '-C', '/repo', 'worktree', 'remove', '--force', wt])
             subprocess.run(['rm', '-rf', wt])
